@@ -28,9 +28,13 @@ by its path from the root (its `parent` is the path without the last step); `tre
 `get_successor_node`, `get_predecessor_node` and the enumeration loop of `foreach_*` / `contains_value`
 are modelled as the C loops on such positions (`Tree.treeMinPath`, `Tree.succPath`, `Tree.predPath`,
 `Tree.walk`) and **proved** to compute the in-order neighbours (section "The pointer walks").  What stays
-outside the model: that the C `parent` fields really hold the parent (re-parenting in `rotate_*`,
-`transplant`, the sentinel's scratch `parent`) — the harness walks the parent pointers on the real heap
-and prints the iterator's node positions computed by climbing them —, and node identity: an iterator
+outside THIS file's model: that the C `parent` fields really hold the parent (re-parenting in `rotate_*`,
+`transplant`, the sentinel's scratch `parent`).  That part is the subject of the pointer-level model
+`Model/PTree.lean` and `Properties/C03PTree.lean` (a heap of nodes with real `parent/left/right/color` fields: the
+rotations, `transplant`, the four walks and the insert fix-up are proved to commute with the inductive tree including
+every parent pointer; `add`/`remove_node` as wholes are executed by the driver and compared with the C heap at L3,
+node ids and parent ids included); the harness additionally walks the parent pointers on the real heap
+and prints the iterator's node positions computed by climbing them.  Node identity in this file: an iterator
 refers to a node by its key (the C code never moves a key between nodes), so *which block* is freed by
 `remove_node` is the harness's (ASan) to judge.
 `cc_treeset_remove` / `cc_treeset_iter_remove` store the table's value (the dummy) in `*out`; the
